@@ -14,7 +14,7 @@ def ints? (xs : List Sexp) : Option (List Int) := xs.mapM int?
 def natsL? (xs : List Sexp) : Option (List Nat) := xs.mapM nat?
 
 def exnName : Exn → String
-  | .typeError => "TypeError" | .retroTimerError => "RetroTimerError"
+  | .typeError => "TypeError" | .retroTimerError => "RetroTimerError" | .valueError => "ValueError"
 
 def outI (r : Except Exn Int) : Sexp :=
   match r with
@@ -34,11 +34,13 @@ def top? : Sexp → Option (TOp Int)
   | .list [.atom "start", d, s] => do some (.start (← optInt? d) (← optInt? s))
   | .list [.atom "restart", d] => do some (.restart (← optInt? d))
   | .list [.atom "wind", i] => do some (.wind (← nat? i))
+  | .list [.atom "tock", i, v] => do some (.setTock (← nat? i) (← int? v))
+  | .list [.atom "bad", _, _] => some .bad
+  | .list [.atom "other", _] => some .nop
   | _ => none
 
-def outSnap : Option (TSnap Int) → Sexp
-  | none => .list [sym "stuck"]
-  | some s => .list [ofOpt ofInt s.ret, ofInt s.duration, outI s.elapsed, outI s.remaining, outB s.expired]
+def outSnap (s : TSnap Int) : Sexp :=
+  .list [if s.raised then sym "raised" else ofOpt ofInt s.ret, ofInt s.duration, outI s.elapsed, outI s.remaining, outB s.expired]
 
 def tymerReq (ts init ops : List Sexp) : Option Sexp := do
   let [t0, t1, k0, k1] := ts | none
@@ -48,7 +50,7 @@ def tymerReq (ts init ops : List Sexp) : Option Sexp := do
   let ops ← ops.mapM top?
   let world : TWorld Int := { tyme := fun i => if i = 0 then t0 else t1, tock := fun i => if i = 0 then k0 else k1 }
   let t := Tymer.new Gen.tymerDuration world w dur start
-  some (.list (outSnap (some (tsnap world t none)) :: (trun world t ops).map outSnap))
+  some (.list (outSnap (tsnap world t none) :: (trun world t ops).map outSnap))
 
 /-! ### mono -/
 
@@ -60,9 +62,13 @@ def mop? : Sexp → Option (MOp Int)
   | .list [.atom "duration"] => some .duration
   | .list [.atom "start", d, s] => do some (.start (← optInt? d) (← optInt? s))
   | .list [.atom "restart", d] => do some (.restart (← optInt? d))
+  | .list [.atom "retro", b] => do some (.setRetro (← bool? b))
+  | .list [.atom "bad", _, _] => some .bad
+  | .list [.atom "other", .atom k] => some (.other (k == "elapsed"))
   | _ => none
 
 def outMVal : MVal Int → Sexp
+  | .unit => sym "-"
   | .int v => ofInt v
   | .bool b => ofBool b
   | .raised e => sym (exnName e)
@@ -91,6 +97,7 @@ def pop? : Sexp → Option (POp Int)
   | .list [.atom "duration"] => some .duration
   | .list [.atom "start", d, s] => do some (.start (← optInt? d) (← optInt? s))
   | .list [.atom "restart", d] => do some (.restart (← optInt? d))
+  | .list [.atom "bad", _, _] => some .bad
   | _ => none
 
 def ptimerReq (kind base incs : Sexp) (init ops : List Sexp) : Option Sexp := do
@@ -114,6 +121,7 @@ def ptimerReq (kind base incs : Sexp) (init ops : List Sexp) : Option Sexp := do
 def preop? : Sexp → Option (PreOp Int)
   | .list [.atom "peek"] => some .peek
   | .list [.atom "tock", v] => do some (.setTock (← int? v))
+  | .list [.atom "xread"] => some .xread
   | _ => none
 
 def outEv : Ev Int → Sexp
@@ -136,11 +144,42 @@ def paceReq (base incs ovs tock0 pre n xs : Sexp) : Option Sexp := do
   let o := paceRun Gen.tymistTock scriptClock (incs.length + 1) { c := base, incs := incs, ovs := ovs } tock0 pre n xs
   some (.list [.list (o.pre.map outEv), .list (o.run.map outEv), sym (endName o.fin), ofOpt ofInt o.tock])
 
+/-- the same Doist run twice: run 1 as `paceRun`; run 2 (only if run 1 got to `do()`) is `doRun` on the second clock script
+from a timer whose history does not matter (`doRun_forgets_timer_history`) -/
+def pace2Req (first mid second : List Sexp) : Option Sexp := do
+  let [base, incs, ovs, tock0, pre, n, xs] := first | none
+  let base ← int? base
+  let incs ← ints? (← list? incs)
+  let ovs ← ints? (← list? ovs)
+  let tock0 ← optInt? tock0
+  let pre ← (← list? pre).mapM preop?
+  let n ← nat? n
+  let xs ← natsL? (← list? xs)
+  let [_mode, tock2] := mid | none
+  let tock2 ← optInt? tock2
+  let [base2, incs2, ovs2, n2, xs2, _entry] := second | none
+  let base2 ← int? base2
+  let incs2 ← ints? (← list? incs2)
+  let ovs2 ← ints? (← list? ovs2)
+  let n2 ← nat? n2
+  let xs2 ← natsL? (← list? xs2)
+  let o := paceRun Gen.tymistTock scriptClock (incs.length + 1) { c := base, incs := incs, ovs := ovs } tock0 pre n xs
+  let part1 := [.list (o.pre.map outEv), .list (o.run.map outEv), sym (endName o.fin), ofOpt ofInt o.tock]
+  match o.tock with
+  | none => some (.list (part1 ++ [.list [], sym "-", sym "-"]))
+  | some t1 =>
+    let t2 := match tock2 with
+      | some v => v
+      | none => t1
+    let r := doRun scriptClock (incs2.length + 1) ⟨0, 0, 0, Gen.monoRetroDefault⟩ { c := base2, incs := incs2, ovs := ovs2 } t2 n2 xs2
+    some (.list (part1 ++ [.list (r.1.map outEv), sym (endName r.2), ofInt t2]))
+
 def handle : Sexp → Sexp
   | .list [.atom "tymer", .list ts, .list init, .list ops] => (tymerReq ts init ops).getD (sym "bad-request")
   | .list [.atom "mono", base, incs, .list init, .list ops] => (monoReq base incs init ops).getD (sym "bad-request")
   | .list [.atom "ptimer", kind, base, incs, .list init, .list ops] => (ptimerReq kind base incs init ops).getD (sym "bad-request")
   | .list [.atom "pace", base, incs, ovs, tock0, pre, n, xs] => (paceReq base incs ovs tock0 pre n xs).getD (sym "bad-request")
+  | .list [.atom "pace2", .list first, .list mid, .list second] => (pace2Req first mid second).getD (sym "bad-request")
   | _ => sym "bad-request"
 
 def main : IO Unit := serve handle
